@@ -741,6 +741,17 @@ class Interp:
         ctx = self.ctx
         if isinstance(op, ast.Mod) and isinstance(a, VStr):
             args = b.items if isinstance(b, VTuple) else [b]
+            lit = z3.simplify(a.t)
+            if z3.is_string_value(lit) and all(isinstance(x, VInt) for x in args):
+                # '...%d...' % ints: literal pieces and the decimal renderings, exactly
+                pieces = lit.as_string().split('%d')
+                if len(pieces) == len(args) + 1 and not any('%' in p for p in pieces):
+                    def dec(t):
+                        return z3.If(t >= 0, z3.IntToStr(t), z3.Concat(z3.StringVal('-'), z3.IntToStr(-t)))
+                    parts = [z3.StringVal(pieces[0])]
+                    for x, p in zip(args, pieces[1:]):
+                        parts += [dec(x.t), z3.StringVal(p)]
+                    return VStr(z3.Concat(*parts) if len(parts) > 1 else parts[0], a.kind)
             for x in args:
                 self.to_str_call(x, fr)
             return VStr(ctx._const('fmt', z3.StringSort()), a.kind)
